@@ -8,6 +8,6 @@ JInit == l = 1
 JNext == /\ l <= Len(Obs) /\ l' = l + 1
          /\ LET o == Obs[l] IN
             /\ Assert(Conforms(o) <=> Reasons(o) = {}, <<"Reasons inconsistent with Conforms at", l>>)
-            /\ Conforms(o) \/ PrintT(<<"BAD", l, Reasons(o)>>)
+            /\ Conforms(o) \/ PrintT(<<"BAD", l, Reasons(o), Lost(o)>>)
 JSpec == JInit /\ [][JNext]_l
 ====
